@@ -236,6 +236,13 @@ let () =
                    | ACrash -> raise (Case_crashed "unapply")
                    | ARet (r3, p2) -> Printf.printf "unapply %s\n" (string_of_z r3); print_state "P2" p2)
               end)
+         | "misuse" :: "build-flags" :: _ ->
+           (match !topoA, !topoB with
+            | Some a, Some b ->
+              (match diff_build (n_of_string "1") a b with
+               | BRet (rc, d) -> Printf.printf "mflags %s %d\n" (string_of_z rc) (List.length d)
+               | BOverread -> print_endline "mflags overread")
+            | _ -> ())
          | "hand" :: flags :: cnt :: [] ->
            print_endline l;
            let k = int_of_string cnt in
